@@ -118,6 +118,8 @@ class Sim(object):
                 return ["ok", ["v", s[1], s[2]]]
             if s[3] == "err":
                 return ["exc", ["item", s[4]]]
+            if s[3] == "errbase":
+                return ["exc", ["itembase", s[4]]]
             return ["exc", "AssertionError"]
         outs = [self.value(x) for x in m[2]]
         for o in outs:
